@@ -35,7 +35,14 @@ def probe_desc(branches):
             comps.append({"name": n, "kind": "source", "args": copy.deepcopy(b["args"]), "parents": []})
             comps.append({"name": "L%d" % k, "kind": "iload", "args": {"ii": b["i"]}, "parents": [n]})
             continue
-        comps.append({"name": n, "kind": b["kind"], "args": copy.deepcopy(b["args"]), "parents": [src[b["v"]]]})
+        parents = [src[b["v"]]]
+        if b["kind"] == "pmux" and b.get("dead_first"):
+            # every second mux probe runs from its SECOND input (dead first input): the table must be looked up at
+            # the selected input's voltage
+            if "Z0" not in [c["name"] for c in comps]:
+                comps.insert(0, {"name": "Z0", "kind": "source", "args": {"vo": 0.0}, "parents": []})
+            parents = ["Z0", src[b["v"]]]
+        comps.append({"name": n, "kind": b["kind"], "args": copy.deepcopy(b["args"]), "parents": parents})
         if b["kind"] not in LOADS:
             comps.append({"name": "L%d" % k, "kind": "iload", "args": {"ii": b["i"]}, "parents": [n]})
     return {"name": "probe", "comps": comps, "phases": {}}, names
